@@ -79,10 +79,27 @@ def facts(repo):
         raise ExtractError(f"{REL}:_store_array: region branch test not found")
     put("regionBranchTest", ast.unparse(reg[0].test), "_store_array")
     noreg, regbody = reg[0].body, reg[0].orelse
-    lazy = [n for n in noreg if isinstance(n, ast.If)]
-    if len(lazy) != 1:
-        raise ExtractError(f"{REL}:_store_array: lazy/non-lazy branch not found")
-    put("lazyBranchTest", ast.unparse(lazy[0].test), "_store_array")
+    # no-region branch: [if is_storage_array(target): shape check + rechunk of unaligned sources] then lazy/non-lazy
+    ifs = [n for n in noreg if isinstance(n, ast.If)]
+    if len(ifs) != 2:
+        raise ExtractError(f"{REL}:_store_array: expected 'if is_storage_array(target)' and the lazy/non-lazy branch")
+    guard, lz = ifs
+    put("copyGuardTest", ast.unparse(guard.test), "_store_array")
+    gmod = ast.Module(body=guard.body, type_ignores=[])
+    graise = sorted([n for n in ast.walk(gmod) if isinstance(n, ast.If) and _raises_value_error(n.body)], key=lambda n: n.lineno)
+    put("copyShapeTest", " ;; ".join(ast.unparse(n.test) for n in graise), "_store_array")
+    gre = [n for n in ast.walk(gmod) if isinstance(n, ast.If) and any(
+        isinstance(x, ast.Assign) and ast.unparse(x.targets[0]) == "source" for x in n.body)]
+    if len(gre) != 1:
+        raise ExtractError(f"{REL}:_store_array: rechunk of unaligned sources not found")
+    put("copyRechunkTest", ast.unparse(gre[0].test), "_store_array")
+    put("copyRechunk", " ;; ".join(ast.unparse(x) for x in gre[0].body), "_store_array")
+    shard_guard = [n for n in guard.body if isinstance(n, ast.If) and any(g is gre[0] for g in ast.walk(n))]
+    put("copyRechunkGuard", ast.unparse(shard_guard[0].test) if shard_guard else "<absent>", "_store_array")
+    if graise and graise[0].lineno > gre[0].lineno:
+        raise ExtractError(f"{REL}:_store_array: shape check no longer precedes the rechunk")
+    lazy = [lz]
+    put("lazyBranchTest", ast.unparse(lz.test), "_store_array")
     bw = [c for s in lazy[0].body for c in _calls(s, "blockwise")]
     if len(bw) != 1:
         raise ExtractError(f"{REL}:_store_array: blockwise identity call not found")
@@ -97,23 +114,37 @@ def facts(repo):
     put("regionChunks", ast.unparse(_assign_value(regmod, "chunks").value), "_store_array")
     al = [n for n in ast.walk(regmod) if isinstance(n, ast.If) and _raises_value_error(n.body)]
     al = sorted(al, key=lambda n: n.lineno)
-    if len(al) != 2:
-        raise ExtractError(f"{REL}:_store_array: expected two raising checks in the region branch, found {len(al)}")
-    put("alignTest", ast.unparse(al[0].test), "_store_array")
-    loop = [n for n in ast.walk(regmod) if isinstance(n, ast.For) and any(a is al[0] for a in ast.walk(n))]
+    if len(al) != 4:
+        raise ExtractError(f"{REL}:_store_array: expected four raising checks in the region branch, found {len(al)}")
+    put("regionTupleTest", ast.unparse(al[0].test), "_store_array")
+    put("stepTest", ast.unparse(al[1].test), "_store_array")
+    nr = _assign_value(regmod, "normalized_region")
+    put("normalizedRegion", ast.unparse(nr.value), "_store_array")
+    put("alignTest", ast.unparse(al[2].test), "_store_array")
+    loop = [n for n in ast.walk(regmod) if isinstance(n, ast.For) and any(a is al[2] for a in ast.walk(n))]
     put("alignLoop", (ast.unparse(loop[0].target) + " in " + ast.unparse(loop[0].iter)) if loop else "<absent>", "_store_array")
-    put("shapeTest", ast.unparse(al[1].test), "_store_array")
+    rebind = [n for n in regbody if isinstance(n, ast.Assign) and ast.unparse(n.targets[0]) == "region"]
+    put("regionRebind", ast.unparse(rebind[0].value) if rebind else "<absent>", "_store_array")
+    put("shapeTest", ast.unparse(al[3].test), "_store_array")
     put("blockOffsets", ast.unparse(_assign_value(regmod, "block_offsets").value), "_store_array")
     put("inCoords", ast.unparse(_assign_value(regmod, "in_coords").value), "_store_array.back_key_function")
     idx = _assign_value(regmod, "indexer")
     put("indexerCall", ast.unparse(idx.value), "_store_array")
-    if not (al[0].lineno < idx.lineno < al[1].lineno):
-        raise ExtractError(f"{REL}:_store_array: order alignment test < indexer < shape test changed")
+    if not (al[0].lineno < al[1].lineno < nr.lineno < al[2].lineno < (rebind[0].lineno if rebind else 0)
+            < idx.lineno < al[3].lineno):
+        raise ExtractError(f"{REL}:_store_array: order tuple test < step test < normalisation < alignment < indexer < shape test changed")
+    put("regionChunksize", ast.unparse(_assign_value(regmod, "region_chunksize").value), "_store_array")
+    rre = [n for n in regbody if isinstance(n, ast.If) and any(
+        isinstance(x, ast.Assign) and ast.unparse(x.targets[0]) == "source" for x in n.body)]
+    if len(rre) != 1 or rre[0].lineno < al[3].lineno:
+        raise ExtractError(f"{REL}:_store_array: rechunk of the source to the target chunks (after the shape test) not found")
+    put("regionRechunkTest", ast.unparse(rre[0].test), "_store_array")
+    put("regionRechunk", " ;; ".join(ast.unparse(x) for x in rre[0].body), "_store_array")
     gb = _calls(regmod, "general_blockwise")
     if len(gb) != 1:
         raise ExtractError(f"{REL}:_store_array: general_blockwise call not found")
-    if gb[0].lineno < al[1].lineno:
-        raise ExtractError(f"{REL}:_store_array: the op is built before the checks")
+    if gb[0].lineno < rre[0].lineno:
+        raise ExtractError(f"{REL}:_store_array: the op is built before the checks / the rechunk")
     put("regionOpCall", " ".join("%s=%s" % (k, _kw(gb[0], k)) for k in
                                   ("shapes", "chunkss", "target_stores", "output_blocks", "num_tasks", "fusable_with_successors")),
         "_store_array")
